@@ -19,6 +19,7 @@ struct Phases {
     nested: u64,
     cli: u64,
     lsp: u64,
+    selfref: u64,
 }
 
 fn phases(tier: Tier) -> Phases {
@@ -31,6 +32,7 @@ fn phases(tier: Tier) -> Phases {
             nested: (TEMPLATES * VARIANTS * 200) as u64,
             cli: 3_000,
             lsp: 6_000,
+            selfref: selfref_space(),
         },
         Tier::Thorough => Phases {
             tok_full: seq_space(54, 3),
@@ -40,6 +42,7 @@ fn phases(tier: Tier) -> Phases {
             nested: (TEMPLATES * VARIANTS * 200) as u64,
             cli: 20_000,
             lsp: 40_000,
+            selfref: selfref_space(),
         },
     }
 }
@@ -52,9 +55,68 @@ enum Door {
 }
 
 /// Generates the text of case `index`; returns (phase name, door, text).
+/// Ways to wrap an expression `_` into a larger one.
+const WRAPPERS: [(&str, &str); 16] = [
+    ("'p ", ""),
+    ("[ ", " ]"),
+    ("{ 'q ", " }"),
+    ("( ", " )"),
+    ("", " | num"),
+    ("", " & { }"),
+    ("", " ~ num"),
+    ("< ", " >"),
+    ("/ on get -> ", ""),
+    ("f ", ""),
+    ("rec r ", ""),
+    ("'p ! ", ""),
+    ("{ 'q ", " , 'n num }"),
+    ("/ { 'p ", " }"),
+    ("< headers = ", " >"),
+    ("g num ", ""),
+];
+
+fn selfref_space() -> u64 {
+    // `let a = W1(W2(W3(a)))` for all wrapper sequences of length <= 3, and
+    // `let a = W1(b); let b = W2(a)` for all pairs of sequences of length <= 1.
+    // Each with two kinds of use: as a content, and as an operand that forces it to be a schema.
+    2 * (seq_space(WRAPPERS.len() as u64, 3) + (1 + WRAPPERS.len() as u64) * (1 + WRAPPERS.len() as u64))
+}
+
+fn wrap(seq: &[usize], inner: &str) -> String {
+    let mut s = inner.to_owned();
+    for w in seq.iter().rev() {
+        s = format!("{}{}{}", WRAPPERS[*w].0, s, WRAPPERS[*w].1);
+    }
+    s
+}
+
+/// A declaration that mentions itself (or two that mention each other) through every short
+/// sequence of wrappers: what the occurs check, the cycle check and the evaluator must survive.
+fn selfref_program(i: u64) -> String {
+    let use_site = if i % 2 == 0 { "< a >" } else { "< a & { 'z str } >" };
+    let i = i / 2;
+    let n = WRAPPERS.len() as u64;
+    let single = seq_space(n, 3);
+    let prelude = "let f x = x ;\nlet g x y = y ;\n";
+    if i < single {
+        let seq = decode_seq(i, n, 3);
+        format!("{prelude}let a = {} ;\nres / on get -> {use_site} ;\n", wrap(&seq, "a"))
+    } else {
+        let j = i - single;
+        let (x, y) = (j / (n + 1), j % (n + 1));
+        let sx: Vec<usize> = if x == 0 { vec![] } else { vec![(x - 1) as usize] };
+        let sy: Vec<usize> = if y == 0 { vec![] } else { vec![(y - 1) as usize] };
+        format!("{prelude}let a = {} ;\nlet b = {} ;\nres / on get -> {use_site} ;\n", wrap(&sx, "b"), wrap(&sy, "a"))
+    }
+}
+
 fn generate(tape: &mut Tape, index: u64, tier: Tier) -> (&'static str, Door, String) {
     let p = phases(tier);
     let mut i = index;
+    if i >= p.tok_full + p.tok_reduced + p.text + p.mutants + p.nested + p.cli + p.lsp {
+        let k = i - (p.tok_full + p.tok_reduced + p.text + p.mutants + p.nested + p.cli + p.lsp);
+        return ("self-reference", Door::InProcess, selfref_program(k));
+    }
     if i < p.tok_full {
         let seq = decode_seq(i, 54, 3);
         let toks: Vec<String> = seq.iter().map(|k| TOKEN_KINDS[*k].1[0].to_owned()).collect();
@@ -323,7 +385,7 @@ impl Property for C04 {
     }
     fn cases(&self, tier: Tier) -> u64 {
         let p = phases(tier);
-        p.tok_full + p.tok_reduced + p.text + p.mutants + p.nested + p.cli + p.lsp
+        p.tok_full + p.tok_reduced + p.text + p.mutants + p.nested + p.cli + p.lsp + p.selfref
     }
     fn rule(&self) -> String {
         "Cases: every sequence of <=3 tokens over all 54 token kinds and every sequence over a 20-kind reduced alphabet \
